@@ -43,9 +43,9 @@ import (
 // the failing stage, then Call/Func on what the input defined also return.
 
 var c03T = []string{":=", "=", "+=", "-=", "*=", "/=", "%=", "|=", "^=", "&=", "<<=", ">>=", "||", "&&", "!", "<", ">", "<=", ">=", "==", "!=", "|", "^", "&", "<<", ">>", "+", "-", "*", "/", "%", "++", "--", ".", "...", "(", "[", "{", "[]", "map", ",", "func", "return", "if", "for", "package", "import", "const", "var", "type", "switch", "$", "make", "true", "false", "nil", "error", "range", "float64", "any", "int", "int32", "byte", "uint8", "rune", "uint32", "uint", "int8", "int16", "int64", "uint16", "uint64", "bool", "string", "continue", "break", "struct", "interface", "case", "default", "iota", ";", ":", "}", ")", "]", "else", "chan", "go", "<-", "->",
-	"0", "1", "42", "0x1f", "08", "1.5", `"s"`, "'s'", `'\n'`, "x", "T", "main", "_", "f", "\n", "len", "append", "delete", "copy", "panic", "println", "fmt", "`r`", "&^", "~", "#", "?", "\\", "@"}
+	"0", "1", "42", "0x1f", "08", "1.5", `"s"`, "'s'", `'\n'`, "x", "T", "main", "_", "f", "\n", "len", "append", "delete", "copy", "panic", "println", "fmt", "`r`", "&^", "~", "#", "?", "\\", "@", `"\400"`, `'\400'`, "0x", "1e", "09", "import", "`", "100000", "4294967296", "99999999999999999999"}
 
-var c03sharp = []string{"(", ")", "{", "}", "[", "]", "[]", ",", ";", ":", ".", "...", "=", ":=", "func", "return", "if", "for", "range", "switch", "case", "default", "type", "struct", "var", "x", "1", "+", "f", "\n"}
+var c03sharp = []string{"(", ")", "{", "}", "[", "]", "[]", ",", ";", ":", ".", "...", "=", ":=", "func", "return", "if", "for", "range", "switch", "case", "default", "type", "struct", "var", "x", "1", "+", "f", "\n", "100000", "-"}
 
 var c03bytes3 = []byte{0, '\t', '\n', ' ', '!', '"', '#', '$', '%', '&', '\'', '(', ')', '*', '+', ',', '-', '.', '/', '0', '9', ':', ';', '<', '=', '>', '?', '@', 'A', '[', '\\', ']', '^', '_', '`', 'a', 'e', 'x', '{', '|', '}', '~', 0x7f, 0x80, 0xc3, 0xa9, 0xff, 'f'}
 
@@ -57,7 +57,7 @@ var c03formSeeds = []string{
 	`type I interface { M() int }`, `m := map[string]int{"a": 1}; v, ok := m["a"]; delete(m, "a"); v; ok`, `s := "héllo"; s[1:2]; len(s)`, `x := make([]int, 2); x = append(x, 1); x[0:1]`,
 	`f := func(a int) int { return a }; f(1)`, `import "fmt"; fmt.Println(1)`, `import ( "math"; s "strings" ); math.Sqrt(4); s.Repeat("a", 2)`, `var f func() int; f()`, `panic("x")`,
 	`x := 1 << 3 | 2 &^ 1`, `!true || false && 1 < 2`, `type M []float64; m := M{1}; m[0]`, `type E struct{}; var e *E; e == nil`, `x := 'a'; y := "a" + "b"; z := 1.5e3; x; y; z`,
-	`func f() { f() }; f()`, `for { }`, `x := []int{}; x[0]`, `var m map[string]int; m["a"] = 1`, `1 / 0`, `$`, `$ 1`,
+	`func f() { f() }; f()`, `func f() int { x := []int{1, 2}; x[1] = 5; m := map[int]int{1: 2}; m[1] = 3; return x[0] + m[1] }; f()`, `type T struct { n int }; func f() int { t := &T{n: 1}; t.n = 2; t.n++; return t.n }; f()`, "import (\nx \"a\"\n)", `import "fmt"; import f "fmt"; f.Println(1)`, `import x "\400"`, `for { }`, `x := []int{}; x[0]`, `var m map[string]int; m["a"] = 1`, `1 / 0`, `$`, `$ 1`,
 }
 
 type c03case struct {
